@@ -592,6 +592,22 @@ example : ∃ s, Reachable kvEx (some 1) s ∧ s.numlevels = 3 := by
     · cases h2
   · cases h
 
+/-! ## negation witness: marks aliasing the space's own sets (defect `refine-aliased-marks`) -/
+
+/-- With the evaluation order of the code as it is, `hs.refine({0: hs.active_cells(0)})` on the
+example knot vector deactivates every level-0 cell but no level-0 function: the selection rule is
+violated (whereas `refineCore` on the same marks deactivates all seven functions, cf. `refine_wf`).
+Replayed on the implementation by `check_aliased_marks` of the harness. -/
+theorem aliased_marks_break_selection_rule :
+    let s0 := HSpace.init kvEx none
+    let M : Marks := [(s0.level 0).act]
+    let bad := refineCoreAliased s0.ops (fun _ => true) M (ensureLevels 2 s0.levels)
+    let good := refineCore s0.ops M (ensureLevels 2 s0.levels)
+    (bad.getD 0 emptyLevel).act = [] ∧ (bad.getD 0 emptyLevel).deact.length = 4 ∧
+    (bad.getD 0 emptyLevel).deactfun = [] ∧ (bad.getD 0 emptyLevel).actfun.length = 7 ∧
+    (good.getD 0 emptyLevel).deactfun.length = 7 ∧ (good.getD 0 emptyLevel).actfun = [] := by
+  decide +kernel
+
 /-- the same history uses only the default marking with disparity 1: `admissible` is not vacuous -/
 example : ∃ s, ReachableDefault kvEx (some 1) s ∧ s.numlevels = 3 := by
   have h := example_history
